@@ -47,7 +47,7 @@ Sig(n) ==
     [] n = "join" -> << <<"strs", "str">>, FALSE >>
     [] n = "mapToArr" -> << <<"maps", "str">>, FALSE >>
     \* host functions of the conformance harness (placed in the data map by the driver)
-    [] n \in {"rec", "fail", "id"} -> << <<"any">>, FALSE >>
+    [] n \in {"rec", "fail", "failv", "id"} -> << <<"any">>, FALSE >>
     [] n = "recs" -> << <<"any">>, TRUE >>                \* variadic recorder
     [] n = "add2" -> << <<"int", "int">>, FALSE >>
     [] n = "cat" -> << <<"str">>, TRUE >>
@@ -174,6 +174,7 @@ ApplyFunc(n, args0, spread, log) ==
               CASE n = "rec" -> <<"v", args[1], Append(log, <<"rec", args>>)>>
                 [] n = "id" -> <<"v", args[1], log>>
                 [] n = "fail" -> <<"e", Append(log, <<"fail", args>>)>>
+                [] n = "failv" -> <<"e", Append(log, <<"failv", args>>)>>      \* returns (-1, error): still only an error
                 [] n = "recs" -> <<"v", Arr(args), Append(log, <<"recs", args>>)>>
                 [] ~natural -> RU
                 [] n = "add2" -> IF IntArgPinned(args[1]) /\ IntArgPinned(args[2])
